@@ -2,6 +2,7 @@ use crate::Fields;
 
 pub mod codec3;
 pub mod codec5;
+pub mod ctlwrap;
 pub mod hs;
 pub mod inbound;
 pub mod iostate;
@@ -34,7 +35,7 @@ pub fn run_stream(
 ) -> bool {
     // async engines: all cases of the input run on one single-threaded ntex runtime
     let lines: Vec<String> = match name {
-        "respq" | "selftest" | "sink3" | "sink5" | "inb3" | "inb5" | "cli3" | "cli5" | "hs" | "iostate" | "timerrt" | "plstop3" | "plstop5" => {
+        "respq" | "selftest" | "sink3" | "sink5" | "inb3" | "inb5" | "cli3" | "cli5" | "hs" | "iostate" | "timerrt" | "plstop3" | "plstop5" | "ctlwrap3" | "ctlwrap5" => {
             let mut text = String::new();
             inp.read_to_string(&mut text).unwrap();
             text.lines().map(str::to_string).collect()
@@ -44,6 +45,12 @@ pub fn run_stream(
     if name == "sink3" || name == "sink5" {
         // own runtime loop: a panic escaping the per-task guards ends one case, not the run
         for l in sink::run_lines(name == "sink5", lines) {
+            writeln!(out, "{l}").unwrap();
+        }
+        return true;
+    }
+    if name == "ctlwrap3" || name == "ctlwrap5" {
+        for l in ctlwrap::run_lines(name == "ctlwrap5", lines) {
             writeln!(out, "{l}").unwrap();
         }
         return true;
